@@ -16,6 +16,7 @@ package proto
 
 import (
 	"bytes"
+	"fmt"
 	"strconv"
 )
 
@@ -48,14 +49,25 @@ func newArrayWithParser(parser *Parser) (*Array, error) {
 		return NewArray(), nil
 	}
 
+	if maxArraySize < arraySize {
+		return nil, fmt.Errorf(errorTooLargeArraySize, arraySize, maxArraySize)
+	}
+
 	// Gets all array messages
-	msgs := make([]*Message, arraySize)
+	msgsCap := arraySize
+	if initialArrayCapacity < msgsCap {
+		msgsCap = initialArrayCapacity
+	}
+	msgs := make([]*Message, 0, msgsCap)
 	for n := 0; n < arraySize; n++ {
 		msg, err := parser.Next()
 		if err != nil {
 			return nil, err
 		}
-		msgs[n] = msg
+		if msg == nil {
+			return nil, fmt.Errorf(errorShortArray, n, arraySize)
+		}
+		msgs = append(msgs, msg)
 	}
 	array := &Array{
 		index: 0,
